@@ -14,7 +14,8 @@ RULE = ('one real ActiveObject with 2-5 endless or long timed sources over overl
         'network") - or by name - the same Event, a fresh Event of that signal, one rebuilt with Event.loads(Event.dumps(e)), a '
         'copied name string; the cancel instant is placed while the victim sleeps, exactly when it wakes (same virtual instant: '
         'the scheduler decides who goes first, down to single bytecodes of the timer\'s run-flag check and of cancel_event(s)), '
-        'or after it finished. Oracle (timer calendar with cancellation): no source cancelled by a call posts after that call '
+        'or after it finished; a second stratum fills the table of tracked sources to one below its capacity (2-4), lets two threads '
+        'ask for one more source at the same time and then cancels one of the old ones. Oracle (timer calendar with cancellation): no source cancelled by a call posts after that call '
         'returned (global event sequence numbers); its entry is gone from the tracked list; every other source still posts on '
         'its calendar up to the horizon; cancelling an unknown id or name changes nothing. Non-trivial = a cancel issued at the '
         'same virtual instant at which the victim wakes; distinct = distinct (cancel form, victim state at cancel, number of '
@@ -22,13 +23,32 @@ RULE = ('one real ActiveObject with 2-5 endless or long timed sources over overl
 ASSUMPTIONS = ['virtual time; horizon 4-12 periods after the last client op']
 PROBES = ['cancel_at_wake_instant', 'cancel_with_equal_not_identical_key']
 PLAN = {
-  'quick': {'strata': {'cancel': 3500}, 'wall_s': 150, 'chunk': 50, 'min_conclusive': 800},
-  'thorough': {'strata': {'cancel': 100000}, 'wall_s': 900, 'chunk': 100, 'min_conclusive': 8000},
+  'quick': {'strata': {'cancel': 3500, 'concurrent-create': 1200}, 'wall_s': 150, 'chunk': 50, 'min_conclusive': 800},
+  'thorough': {'strata': {'cancel': 100000, 'concurrent-create': 30000}, 'wall_s': 900, 'chunk': 100, 'min_conclusive': 8000},
 }
 
 
 def generate(seed, stratum, tier):
   rng = random.Random(seed)
+  if stratum == 'concurrent-create':
+    # the table of tracked sources is nearly full and two threads ask for one more at the same time;
+    # afterwards the oldest source is cancelled
+    cap = rng.randrange(2, 5)
+    p = rng.choice([0.1, 0.25, 1.0])
+    c0 = [['start', 0]]
+    for slot in range(cap - 1):
+      c0.append(['timed', 0, rng.choice(['fifo', 'lifo']), rng.choice(['TA', 'TB']), p, 0, True, slot])
+    c0.append(['barrier', 3])
+    c0.append(['sleep', p * rng.choice([0.5, 1.5, 2])])
+    victim = rng.randrange(cap - 1)
+    if rng.random() < 0.6:
+      c0.append(['cancel_event', 0, 0, victim, rng.choice(['same', 'copy'])])
+    else:
+      c0.append(['cancel_events', 0, rng.choice(['TA', 'TB']), rng.choice(['same', 'fresh'])])
+    others = [[['barrier', 3], ['timed', 0, rng.choice(['fifo', 'lifo']), 'TC', p, 0, rng.choice([True, False]), 10 + k]] for k in range(2)]
+    return {'objects': aw.default_objects(1), 'queue_size': cap, 'clients': [c0] + others, 'stratum': stratum,
+            'horizon_s': p * rng.randrange(6, 12),
+            'sched': common.draw_sched(rng, grans=('line', 'opcode'), weights=(1, 2), expected_steps=1500, policies=('sticky', 'pct'))}
   objs = aw.default_objects(1)
   nsrc = rng.randrange(2, 6)
   p = rng.choice([0.1, 0.25, 1.0])
@@ -58,6 +78,10 @@ def generate(seed, stratum, tier):
 
 
 def shrink_candidates(sc):
+  if len(sc['clients']) > 1:
+    if sc['sched'].get('gran') == 'opcode':
+      yield dict(sc, sched=dict(sc['sched'], gran='line'))
+    return
   s = sc['clients'][0]
   for j in range(len(s) - 1, -1, -1):
     if s[j][0] in ('start',):
@@ -107,6 +131,8 @@ def judge(sc, run, sim, res):
     t_of_seq[rec[0]] = sim.history_t[idx]
   for si, s in enumerate(run.sources):
     if s['rejected']:
+      if sc.get('stratum') == 'concurrent-create' and s['exc'] == 'ActiveObjectOutOfPostedEventResources':
+        continue      # more sources were asked for than can be tracked: a rejection is the documented answer
       res.violate('timed-post-raised', {'exc': s['exc']}, str(s))
       return
     got = appends.get(s['threads'][0], []) if s['threads'] else []
